@@ -80,9 +80,9 @@ func (d *deduplicator) notifyDKGResultSubmitted(
 ) bool {
 	d.dkgResultHashCache.Sweep()
 
-	cacheKey := newDKGResultSeed.Text(16) +
-		hex.EncodeToString(newDKGResultHash[:]) +
-		strconv.Itoa(int(newDKGResultBlock))
+	cacheKey := newDKGResultSeed.Text(16) + "-" +
+		hex.EncodeToString(newDKGResultHash[:]) + "-" +
+		strconv.FormatUint(newDKGResultBlock, 10)
 
 	// If the key is not in the cache, that means the result was not handled
 	// yet and the client should proceed with the execution.
